@@ -14,7 +14,7 @@
 (*        snap0: 802.3 + LLC/SNAP with OUI 0, SNAP type = etype             *)
 (*        snapx: the same with another OUI                                  *)
 (*   l3 \in {"none","ip","arp"}  what the body is                           *)
-(*   tos, proto, sip, dip, frag \in {"no","first","later"}, opts            *)
+(*   tos, proto, sip, dip, frag \in {"no","first","later","last"}, opts     *)
 (*   op                        ARP opcode (spa/tpa are sip/dip)             *)
 (*   l4 \in {"none","tp","icmp"}, a, b   ports or ICMP type/code            *)
 (* IPv4 addresses are 4-tuples of bytes (TLC integers are 32 bit).          *)
@@ -51,6 +51,8 @@ WellFormed(x) == /\ IsIP(x) => x.l3 = "ip"
                  /\ (x.l3 = "ip" /\ x.proto \in {6, 17}) => x.l4 = "tp"
                  /\ (x.l3 = "ip" /\ x.proto = 1) => x.l4 = "icmp"
                  /\ x.l2 = "eth2" => x.etype >= 1536
+                 \* a second tag is only modelled as the type 0x8100 after the first
+                 /\ x.etype = 33024 => (x.tag = 1 /\ x.l2 = "eth2")
 \* transport fields: TCP/UDP ports, ICMP type/code, only for unfragmented IPv4
 HasTp(x) == IsIP(x) /\ x.frag = "no" /\ x.proto \in {1, 6, 17}
 
@@ -115,7 +117,9 @@ FieldEq(m, t, f) == CASE f = "nw_src" -> PrefixEq(m.v.nw_src, t.nw_src, PrefixLe
                       [] f = "nw_dst" -> PrefixEq(m.v.nw_dst, t.nw_dst, PrefixLen(m.dbits))
                       [] OTHER        -> m.v[f] = t[f]
 
-MatchesT(m, t, skip) == \A f \in Active(m) \ skip : FieldEq(m, t, f)
+\* m matches the 12-tuple t (fields in `skip` left out of the comparison)
+MatchesT(m, t, skip) ==
+  \A f \in Fields \ skip : (Considered(m, f) /\ ~Wild(m, f)) => FieldEq(m, t, f)
 Matches(m, x) == MatchesT(m, Extract(x), {})
 
 (* Latitude 1 (the standard does not settle it): dl_vlan_pcp of a frame      *)
@@ -123,9 +127,11 @@ Matches(m, x) == MatchesT(m, Extract(x), {})
 (* compared; "lenient": the field does not exist in such a frame and is not  *)
 (* compared.  An implementation may follow either policy (consistently).     *)
 PcpPols == {"literal", "lenient"}
-MatchesP(m, x, pp) ==
-  IF pp = "lenient" /\ x.tag = 0 THEN MatchesT(m, Extract(x), {"dl_vlan_pcp"})
-  ELSE Matches(m, x)
+Untagged(t) == t.dl_vlan = VLAN_NONE
+MatchesPT(m, t, pp) ==
+  IF pp = "lenient" /\ Untagged(t) THEN MatchesT(m, t, {"dl_vlan_pcp"})
+  ELSE MatchesT(m, t, {})
+MatchesP(m, x, pp) == MatchesPT(m, Extract(x), pp)
 
 (* Latitude 2: which entries are "exact-match entries".  "literal": the wire *)
 (* wildcard word is 0.  "semantic": every field that takes part is fully     *)
@@ -140,14 +146,26 @@ ExactP(m, ep) ==
 (* Lookup.  A table is a set of entries [k, m, prio]; k identifies the entry *)
 (* (the harness gives entry k the action output:2+k).  Exact-match entries   *)
 (* outrank every wildcarded one; among the matching entries of maximal       *)
-(* effective priority any one may be returned (DESIGN 2.8).                  *)
+(* effective priority any one may be returned (DESIGN 2.8).  t is the        *)
+(* 12-tuple of the arriving frame.                                           *)
 INF == 65537
 Eff(e, ep) == IF ExactP(e.m, ep) THEN INF ELSE e.prio
 
-OutcomeP(tbl, x, pp, ep) ==
-  LET M == {e \in tbl : MatchesP(e.m, x, pp)} IN
+\* the answer given the set M of matching entries and an exactness policy:
+\* 0 = table miss, else the key of an entry of M that no entry of M outranks
+Best(M, ep) ==
   IF M = {} THEN {0}
   ELSE {e.k : e \in {e \in M : \A e2 \in M : Eff(e, ep) >= Eff(e2, ep)}}
+OutcomePT(tbl, t, pp, ep) == Best({e \in tbl : MatchesPT(e.m, t, pp)}, ep)
 
-Outcomes(tbl, x) == UNION {OutcomeP(tbl, x, pp, ep) : pp \in PcpPols, ep \in ExactPols}
+\* every answer some consistent pair of policies gives
+\*   = UNION {OutcomePT(tbl, t, pp, ep) : pp \in PcpPols, ep \in ExactPols}
+\* (checked as ASSUME in MCLookup); written so that each match is evaluated once
+OutcomesT(tbl, t) ==
+  LET lit == {e \in tbl : MatchesT(e.m, t, {})}
+      len == IF Untagged(t) THEN {e \in tbl : MatchesT(e.m, t, {"dl_vlan_pcp"})} ELSE lit
+  IN Best(lit, "literal") \cup Best(lit, "semantic")
+       \cup (IF len = lit THEN {} ELSE Best(len, "literal") \cup Best(len, "semantic"))
+OutcomesDecl(tbl, t) == UNION {OutcomePT(tbl, t, pp, ep) : pp \in PcpPols, ep \in ExactPols}
+Outcomes(tbl, x) == OutcomesT(tbl, Extract(x))
 =============================================================================
